@@ -485,14 +485,33 @@ def run_case(ctx, case):
                     ctx.count('fetch.rnglist.v%d' % (5 if v5 else 4))
                     referenced['rng'][v5][off] = ([], want)
     # --- enumeration
+    enum_objs = []
     for sect, both, obj in (('loc', both_loc, ll), ('rng', both_rng, rl)):
-        if obj is None or both:
-            if both:
-                ctx.count('pair.' + sect)
+        if obj is None:
             continue
-        v5 = ('.debug_loclists' if sect == 'loc' else '.debug_rnglists') in secs
+        if both:
+            # a file with both generations of a section: the pair object does not enumerate; each section is enumerated through an
+            # object for that section alone, made with the public constructor (what a dumper of such a file does)
+            ctx.count('pair.' + sect)
+            try:
+                if sect == 'rng':
+                    from elftools.dwarf.ranges import RangeLists
+                    enum_objs.append((sect, False, RangeLists(di.debug_ranges_sec.stream, di.structs, 4, di)))
+                    enum_objs.append((sect, True, RangeLists(di.debug_rnglists_sec.stream, di.structs, 5, di)))
+                else:
+                    from elftools.dwarf.locationlists import LocationLists
+                    enum_objs.append((sect, False, LocationLists(di.debug_loc_sec.stream, di.structs, 4, di)))
+                    enum_objs.append((sect, True, LocationLists(di.debug_loclists_sec.stream, di.structs, 5, di)))
+            except Exception as e:  # noqa
+                ctx.fail_exc('enumerate|%s|pair-halves' % sect, e, case)
+        else:
+            enum_objs.append((sect, ('.debug_loclists' if sect == 'loc' else '.debug_rnglists') in secs, obj))
+    for sect, v5, obj in enum_objs:
+        both = both_loc if sect == 'loc' else both_rng
         refs = referenced[sect][v5]
         want_seq = [refs[o][0] + refs[o][1] for o in sorted(refs)]
+        if both:
+            ctx.count('enumerate.pair-half.%s.v%d' % (sect, 5 if v5 else 4))
         try:
             got_seq = [got_entries(l, sect == 'loc') for l in (obj.iter_location_lists() if sect == 'loc' else obj.iter_range_lists())]
             if len(got_seq) != len(want_seq):
@@ -851,6 +870,18 @@ def sweep(tier):
                                 continue
                             dies.append([{'at': at, 'form': form, 'kind': 'decoy', 'spec': decoy_spec(RndChooser(7), form)}])
                     cases.append({'le': le, 'addr_size': A, 'loc4': loc4, 'rng4': rng4, 'cus': [{'version': ver, 'fmt': fmt, 'dies': dies}]})
+            # both generations in one file, with lists at EQUAL numeric offsets in the old and the new section (the offsets of the two
+            # sections are unrelated number spaces), v4 unit first and v5 unit first
+            noff = 1 if A == 4 else 5            # first v5 list at 12 + 4 * noff = 16 / 32 = size of a v4 list with one entry
+            for order in (0, 1):
+                rng4 = [{'ents': [['range', 0x10, 0x20]]}, {'ents': [['range', 0x30, 0x44], ['range', 0x50, 0x60]]}]
+                loc4 = [{'ents': [['loc', 0x10, 0x20, b'\x50']]}, {'ents': [['loc', 0x30, 0x44, b'\x51']]}]
+                rng5 = [{'fmt': 32, 'offset_count': noff, 'addr_table': None, 'lists': [{'ents': [['offset_pair', 1, 2]]}, {'ents': [['start_length', 0x100, 8]]}], 'tail_gap': 0}]
+                loc5 = [{'fmt': 32, 'offset_count': noff, 'addr_table': None, 'lists': [{'ents': [['offset_pair', 1, 2, b'\x52']]}, {'ents': [['start_length', 0x100, 8, b'\x53']]}], 'tail_gap': 0}]
+                cu4 = {'version': 4, 'fmt': 32, 'dies': [[{'at': 0x02, 'form': 'DW_FORM_sec_offset', 'kind': 'loclist', 'ref': i}, {'at': 0x55, 'form': 'DW_FORM_sec_offset', 'kind': 'rnglist', 'ref': i}] for i in (0, 1)]}
+                cu5 = {'version': 5, 'fmt': 32, 'loc_block': 0, 'rng_block': 0, 'addr_table': None,
+                       'dies': [[{'at': 0x02, 'form': 'DW_FORM_sec_offset', 'kind': 'loclist', 'ref': i}, {'at': 0x55, 'form': 'DW_FORM_sec_offset', 'kind': 'rnglist', 'ref': i}] for i in (0, 1)]}
+                cases.append({'le': le, 'addr_size': A, 'addr_tables': [], 'loc4': loc4, 'rng4': rng4, 'loc5': loc5, 'rng5': rng5, 'cus': [cu4, cu5] if order == 0 else [cu5, cu4]})
             # decoys in a v5 unit as well
             dies = []
             for at, forms in DECOYS:
